@@ -75,8 +75,8 @@ PRED = {
     "nested-named-args": lambda c: len(re.findall(r"[A-Za-z_][A-Za-z_0-9]*:\(", c["src"])) >= 10 and bracket_depth(c["src"]) >= 10,
     # C12-H4: at least 10 unclosed `(`, each behind an operator that also has a prefix form (+ - * == .. and the alias `=`)
     "unclosed-after-prefix-operator": lambda c: c["src"].count("(") - c["src"].count(")") >= 10 and len(re.findall(r"(?:\+|-|\*|==|(?<![=!<>~])=|\.\.|:)\s*\(", c["src"])) >= 10,
-    # C12-N14: a lambda without parameters (`->` at the start of a pipeline stage / parenthesis / line, possibly after `func`)
-    "parameterless-lambda": lambda c: re.search(r"(?:^|[|(\n=,{\[])\s*(?:func\s*)?->", c["src"]) is not None,
+    # C12-N14: a lambda (its body may fold to a partially applied built-in); in corr-closure-arity the model classifies instead
+    "lambda-in-source": lambda c: "->" in c["src"],
 }
 
 
@@ -329,6 +329,7 @@ def run():
     CR.frame_correspondence(ck)
     CR.neg_correspondence(ck)
     CR.closure_correspondence(ck, uinfo)
+    CR.parse_retry_times(ck)
 
     # 2. probe streams
     progs = S.all_programs()
